@@ -173,7 +173,7 @@ var osFuncs = map[string]bool{
 var ioutilFuncs = map[string]string{"WriteFile": "WriteFile", "TempFile": "CreateTemp"}
 var fileMethods = map[string]string{
 	"Write": "FileWrite", "WriteString": "FileWriteString", "WriteAt": "FileWriteAt", "Sync": "FileSync",
-	"Truncate": "FileTruncate", "Close": "FileClose", "ReadFrom": "FileReadFrom",
+	"Truncate": "FileTruncate", "Close": "FileClose", "ReadFrom": "FileReadFrom", "Seek": "FileSeek",
 }
 
 // recvExpr builds the explicit pointer-to-receiver expression for a method call through sel,
@@ -309,6 +309,9 @@ func (r *rewriter) pkgFunc(sel *ast.SelectorExpr) (pkgPath, name string) {
 func (r *rewriter) post(c *astutil.Cursor) bool {
 	switch n := c.Node().(type) {
 	case *ast.SelectorExpr:
+		if r.methodValue(c, n) {
+			return true
+		}
 		if p, name := r.pkgFunc(n); p == "os" && osFuncs[name] {
 			if name == "Open" {
 				return true
@@ -344,6 +347,45 @@ func (r *rewriter) post(c *astutil.Cursor) bool {
 	case *ast.RangeStmt:
 		r.rewriteRange(c, n)
 	}
+	return true
+}
+
+// methodValue rewrites method values of locks (e.g. `return f.refs.RUnlock`) into closures that go
+// through simrt, so that the lock table stays exact.
+func (r *rewriter) methodValue(c *astutil.Cursor, n *ast.SelectorExpr) bool {
+	s := r.info.Selections[n]
+	if s == nil || s.Kind() != types.MethodVal {
+		return false
+	}
+	if ce, ok := c.Parent().(*ast.CallExpr); ok && ce.Fun == n {
+		return false
+	}
+	fn, ok := s.Obj().(*types.Func)
+	if !ok || fn.Pkg() == nil || fn.Pkg().Path() != "sync" {
+		return false
+	}
+	sig := fn.Type().(*types.Signature)
+	if sig.Recv() == nil {
+		return false
+	}
+	_, rn, _ := namedOf(sig.Recv().Type())
+	m := fn.Name()
+	if (rn != "Mutex" && rn != "RWMutex") || (m != "Lock" && m != "Unlock" && m != "RLock" && m != "RUnlock") {
+		if rn == "Mutex" || rn == "RWMutex" || rn == "Cond" || rn == "Once" || rn == "WaitGroup" && m == "Wait" {
+			r.note(n.Pos(), "method value of sync."+rn+"."+m+" left alone")
+		}
+		return false
+	}
+	ptr := r.recvPtr(n, s)
+	if ptr == nil {
+		return false
+	}
+	pre := "Mu"
+	if rn == "RWMutex" {
+		pre = "RW"
+	}
+	c.Replace(call(rt(pre+m+"Func"), ptr, newSite(r.fset, n.Pos(), strings.ToLower(m))))
+	r.changed, r.useRT = true, true
 	return true
 }
 
